@@ -130,7 +130,7 @@ Proof.
       eapply wp_conseq; [apply (rt_carry_spec c s2 o2 HR Hlo2 Hok2)| |].
       * apply old_ok_pre with (c := c). exact Ho2.
       * apply budget_of_need'; [exact HR|]. destruct Ho2 as (_ & _ & _ & _ & Hn). exact Hn.
-      * intros [] s3 (HI3 & Habs3 & _ & _ & Hlo3). apply Hfin; [assumption|assumption|].
+      * intros [] s3 (HI3 & Habs3 & _ & _ & _ & Hlo3). apply Hfin; [assumption|assumption|].
         unfold progress. cbn [negb]. rewrite Hlo2 in Hlo3. destruct Hlo3 as (_ & _ & Hlo3).
         unfold shape in Hsh2. rewrite Hlo2 in Hsh2.
         destruct (lo (s_rt s)) as [o|]; [|exact I]. cbn [option_map] in Hsh2.
@@ -145,14 +145,14 @@ Proof.
         rewrite lookup_insert_ne in Hx by congruence. exact Hx.
   - cbn [option_map] in Hfa. apply wp_bind.
     eapply wp_conseq; [apply (rt_insert_spec c (Elem k kid v) s1); [rewrite Hs1; exact HI|rewrite Hs1; exact Hfa]| |].
-    + intros [] s2 (HI2 & Habs2 & Hpos & Hfull). apply wp_ret. unfold map_insert_Q. split; [exact HI2|].
+    + intros [] s2 (HI2 & Habs2 & _ & Hpos & Hfull). apply wp_ret. unfold map_insert_Q. split; [exact HI2|].
       rewrite Hfa. split; [split; [reflexivity|rewrite Habs2, Hs1; reflexivity]|].
       rewrite Hs1 in *. unfold rt_find_pure in Hf.
       destruct (hel (main (s_rt s)) !! k) eqn:Hm; [discriminate|].
       unfold progress. destruct (lo (s_rt s)) as [o|] eqn:Hlo; [|exact I].
       destruct (N.eq_dec (hgl (main (s_rt s))) 0) as [Hz|Hz].
       * destruct (Hfull Hz) as [Hcontra _]. discriminate.
-      * destruct (Hpos ltac:(lia)) as (_ & _ & _ & _ & Hprog). rewrite Hlo in Hprog. destruct Hprog as [_ Hprog]. exact Hprog.
+      * destruct (Hpos ltac:(lia)) as (_ & _ & _ & _ & _ & Hprog). rewrite Hlo in Hprog. destruct Hprog as [_ Hprog]. exact Hprog.
     + intros p s2 (HI2 & Hp & Hsub). split; [exact HI2|]. split; [rewrite Hs1 in Hp; exact Hp|].
       intros j x Hx Hjk. eapply lookup_weaken in Hx; [|exact Hsub]. cbn [ek] in Hx.
       rewrite lookup_insert_ne in Hx by congruence. rewrite Hs1 in Hx. exact Hx.
